@@ -157,7 +157,10 @@ def per_track(chk: core.Check, n_lists: int):
             E2 = E.copy(); j = int(rng.integers(0, n)); E2[j] = E2[j] * 1.5 + 1e-3
             other = hc.impl_arr(h, error=E2, nest=lv)
             verdict = ak.to_numpy(ak.flatten(arr.isclose(other), axis=None))
-            want = np.ones(n, bool); want[j] = False
+            import warnings
+            with warnings.catch_warnings():
+                warnings.simplefilter("ignore")
+                want = np.array([bool(objs[i].isclose(pybes3.helix_obj(h["dr"][i], h["phi0"][i], h["kappa"][i], h["dz"][i], h["tanl"][i], pivot=tuple(h["piv"][i]), error=E2[i]))) for i in range(n)])
             if verdict.tolist() != want.tolist():
                 chk.failing_input("HelixAwkwardArray.isclose per-track verdicts", dict(desc(), differing_track=j), verdict.tolist(), want.tolist(), "the closeness test gives for each track what the single-track helix gives for that track alone")
                 return
